@@ -320,7 +320,12 @@ Definition resume (s : state) (t : tid) : option state :=
              | KCreate, KCreate | KRevert, KRevert | KSaveMeta, KSaveMeta | KDelMeta, KDelMeta => true
              | _, _ => false end
           then ok (finish t th (ROk (e_txid e)) (negb (rq_dry rq)) true false true u)
-          else ok (finish t th (RErr EKindMismatch) false true false true u)
+          else if is_tx_kind (rq_kind rq)
+          (* the stored entry is of another kind: CreateTransaction / RevertTransaction type-assert the payload and
+             panic (answered 500); SaveMeta / DeleteMetadata do not look at it: they report success, and publish,
+             although nothing was written *)
+          then ok (finish t th (RErr EKindMismatch) false true false true u)
+          else ok (finish t th (ROk None) (negb (rq_dry rq)) true false true u)
       | PIkLookup None => ok (enter_exec t th u)
       | PRefBusy => ok (finish t th (RErr EConflict) false true false true u)
       | PRefTaken => ok (set_th t (with_pc th (PRefLookup (has_ref (persisted s) (rq_ref rq)))) u)
